@@ -336,7 +336,7 @@ def translation_edge_stream(ctx):
         else:
             b = rng.choice([10, 7, 100])
             dt = rng.choice(['int8', 'int16', 'int32', 'int64'])
-            t = rng.choice([-2.5, -0.5, -3.25, -1.75])
+            t = rng.choice([-2.5, -0.5, -3.25, -1.75, -2.0, 0.0, 3.0, 1.0, -4.0])       # fractional, and integral floats that equal pixel values
             base = (np.array(vals, dtype=dt) - 6).reshape(shape)         # values -5 .. 6
             moved = base + np.array(b, dtype=dt)
             ftype = rng.choice([np.float64, np.float32])
